@@ -35,7 +35,7 @@ CHECKS = {
     'C05': dict(
         engine='E1 bounded-exhaustive input sweep (in-process) + real binary',
         technique='bounded-exhaustive enumeration of all input strings up to a length over explicit alphabets, run through the real code (explicit-state style exploration, no sampling)',
-        text='Every string up to length 4 (thorough: 5-6) over two 14-symbol shell alphabets through every pure stage in-process, every string up to length 3-4 through planning under three variable environments (incl. self-referential values), every sequence of up to 4 (5) block-keyword script lines through grammar and interpreter, and every string up to length 3 (4) executed by the real binary; oracle: no panic, no abort, no confirmed hang, next command still runs. A third alphabet C mixes the characters of A and B that interact ($ { } quotes backslash parentheses * ~ blank). Real binary also: every builtin with boundary argument lists (non-numeric, huge, negative, option-like, empty words).',
+        text='Every string up to length 4 (thorough: 5-6) over two 14-symbol shell alphabets through every pure stage in-process, every string up to length 3-4 through planning under three variable environments (incl. self-referential values), every string up to length 5 (thorough: 6-7) over a fourth 8-symbol alphabet of brace groups and escapes through the pure stages and planning, every sequence of up to 4 (5) block-keyword script lines through grammar and interpreter, and every string up to length 3 (4) executed by the real binary; oracle: no panic, no abort, no confirmed hang, next command still runs. A third alphabet C mixes the characters of A and B that interact ($ { } quotes backslash parentheses * ~ blank). Real binary also: every builtin with boundary argument lists (non-numeric, huge, negative, option-like, empty words).',
         note='Alphabets and lengths are the bound; pty keystroke sequences are not covered; hang detection uses a time limit confirmed by an isolated re-run.',
         ref='DESIGN.md §4 C05'),
     'C06': dict(
